@@ -470,9 +470,9 @@ package schema
 //@   ensures err == nil ==> (forall j int :: 0 <= j && j < rv_len(v) ==> typeOf(rv_iface(rv_key(v, j))) == type(string) && skey(v, j) in o.PropertiesValue && skey(v, j) in rawData)
 //@   ensures err == nil ==> (forall k string :: k in rawData ==> k in o.PropertiesValue && finalForm(o, v, defsOf(o), rawData, k))
 //@   ensures err == nil ==> (forall k string :: k in o.PropertiesValue && !supplied(v, k) && k in defsOf(o) ==> k in rawData)
-//@   loop 1 invariant rawData != nil && fresh(rawData) && (forall j int :: 0 <= j && j <= idx ==> typeOf(rv_iface(rv_key(v, j))) == type(string) && skey(v, j) in o.PropertiesValue && skey(v, j) in rawData) && (forall k string :: k in rawData ==> k in o.PropertiesValue && supplied(v, k) && rawData[k] == suppliedV(v, k))
-//@   loop 2 invariant rawData != nil && fresh(rawData) && o.PropertiesValue == old(o.PropertiesValue) && o.fieldCache == nil && (o.defaultValues == old(o.defaultValues) || (old(o.defaultValues) == nil && o.defaultValues != nil && o.defaultValues != rawData && mapEq(o.defaultValues, extractedDefs(o.PropertiesValue)))) && (forall j int :: 0 <= j && j < rv_len(v) ==> typeOf(rv_iface(rv_key(v, j))) == type(string) && skey(v, j) in o.PropertiesValue && skey(v, j) in rawData) && (forall k string :: k in rawData ==> k in o.PropertiesValue && rawForm(v, defsOf(o), rawData, k)) && (forall k string :: k in visited && !supplied(v, k) && k in defsOf(o) ==> k in rawData)
-//@   loop 3 invariant rawData != nil && fresh(rawData) && o.PropertiesValue == old(o.PropertiesValue) && (forall j int :: 0 <= j && j < rv_len(v) ==> typeOf(rv_iface(rv_key(v, j))) == type(string) && skey(v, j) in o.PropertiesValue && skey(v, j) in rawData) && (forall k string :: k in rawData ==> k in o.PropertiesValue && (k in visited ? finalForm(o, v, defsOf(o), rawData, k) : rawForm(v, defsOf(o), rawData, k))) && (forall k string :: k in o.PropertiesValue && !supplied(v, k) && k in defsOf(o) ==> k in rawData)
+//@   loop 1 invariant o.PropertiesValue == old(o.PropertiesValue) && o.fieldCache == old(o.fieldCache) && o.IDValue == old(o.IDValue) && o.IDUnenforcedValue == old(o.IDUnenforcedValue) && rawData != nil && fresh(rawData) && (forall j int :: 0 <= j && j <= idx ==> typeOf(rv_iface(rv_key(v, j))) == type(string) && skey(v, j) in o.PropertiesValue && skey(v, j) in rawData) && (forall k string :: k in rawData ==> k in o.PropertiesValue && supplied(v, k) && rawData[k] == suppliedV(v, k))
+//@   loop 2 invariant o.PropertiesValue == old(o.PropertiesValue) && o.fieldCache == old(o.fieldCache) && o.IDValue == old(o.IDValue) && o.IDUnenforcedValue == old(o.IDUnenforcedValue) && rawData != nil && fresh(rawData) && o.fieldCache == nil && (o.defaultValues == old(o.defaultValues) || (old(o.defaultValues) == nil && o.defaultValues != nil && o.defaultValues != rawData && mapEq(o.defaultValues, extractedDefs(o.PropertiesValue)))) && (forall j int :: 0 <= j && j < rv_len(v) ==> typeOf(rv_iface(rv_key(v, j))) == type(string) && skey(v, j) in o.PropertiesValue && skey(v, j) in rawData) && (forall k string :: k in rawData ==> k in o.PropertiesValue && rawForm(v, defsOf(o), rawData, k)) && (forall k string :: k in visited && !supplied(v, k) && k in defsOf(o) ==> k in rawData)
+//@   loop 3 invariant o.PropertiesValue == old(o.PropertiesValue) && o.fieldCache == old(o.fieldCache) && o.IDValue == old(o.IDValue) && o.IDUnenforcedValue == old(o.IDUnenforcedValue) && rawData != nil && fresh(rawData) && (forall j int :: 0 <= j && j < rv_len(v) ==> typeOf(rv_iface(rv_key(v, j))) == type(string) && skey(v, j) in o.PropertiesValue && skey(v, j) in rawData) && (forall k string :: k in rawData ==> k in o.PropertiesValue && (k in visited ? finalForm(o, v, defsOf(o), rawData, k) : rawForm(v, defsOf(o), rawData, k))) && (forall k string :: k in o.PropertiesValue && !supplied(v, k) && k in defsOf(o) ==> k in rawData)
 
 // one-of: routing by the discriminator only, discriminator stripped or passed on per the inlining flag
 //@ func OneOfSchema.deleteDiscriminator(o, mymap) -> res
@@ -797,6 +797,7 @@ package schema
 //@   ensures err == nil ==> typeOf(res) == type(map[string]any) && fresh(res.(map[string]any))
 //@ func ObjectSchema.convertData(o, v) -> rawData, err
 //@   ensures err == nil ==> fresh(rawData)
+//@   ensures o.PropertiesValue == old(o.PropertiesValue) && o.fieldCache == old(o.fieldCache) && o.IDValue == old(o.IDValue) && o.IDUnenforcedValue == old(o.IDUnenforcedValue)
 //@ func ObjectSchema.unserializeInlinedDataToMap(o, data) -> res, err
 //@   ensures err == nil ==> fresh(res)
 //@ func AnySchema.checkAndConvert(a, data) -> res, err
@@ -1031,11 +1032,13 @@ package schema
 //@   loop 1 invariant forall j int :: 0 <= j && j <= idx ==> typeOf(mapKey(data, j)) == type(string)
 //@   checks err == nil ==> (forall j int :: 0 <= j && j < listLen(data) ==> typeOf(mapKey(data, j)) == type(string))
 
-// C03: filling in sub-object defaults sets an absent property only to a non-empty map, and touches no other key
+// C03: filling in sub-object defaults for an ABSENT property sets it only to a non-empty map, and touches no other key
 //@ func ObjectSchema.applySubObjectDefaultValues(o, propertyID, property, rawData)
-//@   scope rawData != nil
-//@   ensures propertyID in rawData && !(propertyID in old(rawData)) ==> typeOf(rawData[propertyID]) == type(map[string]any) && len(rawData[propertyID].(map[string]any)) > 0
+//@   scope rawData != nil && !(propertyID in rawData)
+//@   ensures propertyID in rawData ==> typeOf(rawData[propertyID]) == type(map[string]any) && len(rawData[propertyID].(map[string]any)) > 0
 //@   ensures forall k string :: k != propertyID ==> (k in rawData) == old(k in rawData)
+//@   loop 1 invariant data != rawData && (forall k string :: (k in rawData) == old(k in rawData))
+//@   loop 2 invariant data != rawData && (forall k string :: (k in rawData) == old(k in rawData))
 
 // C18: an error returned by the handler is reported as function-reported, with the handler's own error as its
 // source, whatever that error wraps
